@@ -516,7 +516,7 @@ def filter_scenario(rng, n_ops=10, tag='wf', ops=None):
     open(os.path.join(d, 'conf', 'settings.ini'), 'w').write('s0\n')
     open(os.path.join(d, 'conf', 'other.ini'), 'w').write('o0\n')
     os.makedirs(os.path.join(d, 'side', 'subdir'))
-    open(os.path.join(d, 'side', 'one.ini'), 'w').write('1\n')
+    open(os.path.join(d, 'side', 'one.ini'), 'w').write('one0\n')
     open(os.path.join(d, 'side', 'subdir', 'x.ini'), 'w').write('x\n')
     os.makedirs(os.path.join(d, 'mix', 'deep'))
     open(os.path.join(d, 'mix', 'inner.cfg'), 'w').write('i0\n')
@@ -639,7 +639,7 @@ def filter_scenario(rng, n_ops=10, tag='wf', ops=None):
                 open(os.path.join(d, 'mix', 'deep', 'd.cfg'), 'w').write('d%d\n' % seq); target = 'mixf'
             elif op == 'side_file_rename_over':
                 tmp = os.path.join(d, 'elsewhere', 'o.%d' % seq)
-                open(tmp, 'w').write('%d\n' % seq)
+                open(tmp, 'w').write('one%d\n' % seq)
                 os.replace(tmp, os.path.join(d, 'side', 'one.ini')); target = 'sidef'
             elif op == 'side_sub_modify':
                 if os.path.isdir(os.path.join(d, 'side', 'subdir')):
